@@ -116,126 +116,151 @@ func c03Scenarios() []*c03Scn {
 	pM0, pM4, pMH := c03Prof{"M0", c03M0}, c03Prof{"M4", c03M4}, c03Prof{"MH", c03MH}
 	pT1, pT2 := c03Prof{"T1", c03T1}, c03Prof{"T2", c03T2}
 	both := []network.Direction{c03In, c03Out}
+	in1 := []network.Direction{c03In}
+	out1 := []network.Direction{c03Out}
 
 	// ---- family conn: OpenConnection / SetPeer / Done / memory on the connection, every edge tight in turn ----
+	// chain of a connection: own scope, transient|peer, system
 	connCount := c03Alpha{eps: []int{c03EPv4}, dirs: both, fds: []bool{true, false}, maxConns: 3, setPeer: []int{0, 1},
 		sizes: []int64{3}, prios: []uint8{255}, memOn: [3]bool{true, false, false}, gc: true}
-	connMem := c03Alpha{eps: []int{c03EPv4}, dirs: []network.Direction{c03In}, fds: []bool{false}, maxConns: 2, setPeer: []int{0, 1},
+	connMem := c03Alpha{eps: []int{c03EPv4}, dirs: in1, fds: []bool{false}, maxConns: 2, setPeer: []int{0, 1},
 		sizes: []int64{1, 3}, prios: []uint8{255, 127}, memOn: [3]bool{true, false, false}, gc: true, closedOps: true}
 	for _, sc := range []string{"conn", "transient", "peer", "system"} {
-		add("conn", 4, 5, connCount, c03Set{sc, pC0})
-		add("conn", 4, 5, connCount, c03Set{sc, pC1})
-		add("conn", 0, 5, connCount, c03Set{sc, pC2})
-		add("conn", 4, 5, connMem, c03Set{sc, pM4})
-		add("conn", 0, 5, connMem, c03Set{sc, pM0})
+		add("conn", 6, 8, connCount, c03Set{sc, pC0})
+		add("conn", 6, 8, connCount, c03Set{sc, pC1})
+		add("conn", 5, 8, connCount, c03Set{sc, pC2})
+		add("conn", 6, 8, connMem, c03Set{sc, pM4})
+		add("conn", 5, 8, connMem, c03Set{sc, pM0})
 	}
 	// inner scopes tighter and looser than outer ones
-	add("conn", 4, 5, connCount, c03Set{"peer", pC1}, c03Set{"system", pC2})
-	add("conn", 4, 5, connCount, c03Set{"peer", pC2}, c03Set{"system", pC1})
-	add("conn", 0, 5, connCount, c03Set{"transient", pC1}, c03Set{"system", pC2})
-	add("conn", 0, 5, connCount, c03Set{"transient", pC2}, c03Set{"system", pC1})
-	add("conn", 4, 5, connCount, c03Set{"transient", pT1}, c03Set{"peer", pT2}, c03Set{"system", pT2})
-	add("conn", 0, 5, connMem, c03Set{"peer", pM4}, c03Set{"system", pMH})
-	add("conn", 0, 5, connMem, c03Set{"transient", pM0}, c03Set{"peer", pM4})
+	add("conn", 6, 8, connCount, c03Set{"peer", pC1}, c03Set{"system", pC2})
+	add("conn", 6, 8, connCount, c03Set{"peer", pC2}, c03Set{"system", pC1})
+	add("conn", 5, 8, connCount, c03Set{"transient", pC1}, c03Set{"system", pC2})
+	add("conn", 5, 8, connCount, c03Set{"transient", pC2}, c03Set{"system", pC1})
+	add("conn", 6, 8, connCount, c03Set{"transient", pT1}, c03Set{"peer", pT2}, c03Set{"system", pT2})
+	add("conn", 5, 8, connMem, c03Set{"peer", pM4}, c03Set{"system", pMH})
+	add("conn", 5, 8, connMem, c03Set{"transient", pM0}, c03Set{"peer", pM4})
 	// per-peer override: peer A tight, peer B loose
 	{
-		s := add("conn", 0, 5, connCount)
+		s := add("conn", 5, 8, connCount)
 		s.lim.peerOver = map[int]BaseLimit{0: c03T1}
 		s.name = "conn/peerA=T1(override)"
 	}
 
 	// ---- family stream: OpenStream / SetProtocol / SetService / memory on the stream ----
+	// chain of a stream: own scope, peer, [transient | protoPeer, proto | protoPeer, svcPeer, proto, svc], system
 	strCount := c03Alpha{streamPeers: []int{0, 1}, streamDirs: both, maxStreams: 3, protos: []int{0}, svc: true,
 		sizes: []int64{3}, prios: []uint8{255}, memOn: [3]bool{false, true, false}, gc: true}
-	strMem := c03Alpha{streamPeers: []int{0}, streamDirs: []network.Direction{c03In}, maxStreams: 2, protos: []int{0}, svc: true, svcEarly: true,
-		sizes: []int64{1, 3}, prios: []uint8{255, 127}, memOn: [3]bool{false, true, false}, gc: true}
+	strMem := c03Alpha{streamPeers: []int{0}, streamDirs: in1, maxStreams: 2, protos: []int{0}, svc: true, svcEarly: true,
+		sizes: []int64{1, 3}, prios: []uint8{255, 127}, memOn: [3]bool{false, true, false}, gc: true, closedOps: true}
 	for _, sc := range []string{"stream", "peer", "transient", "system", "proto", "protoPeer", "svc", "svcPeer"} {
-		add("stream", 4, 5, strCount, c03Set{sc, pC0})
-		add("stream", 4, 5, strCount, c03Set{sc, pC1})
-		add("stream", 0, 5, strCount, c03Set{sc, pC2})
-		add("stream", 4, 5, strMem, c03Set{sc, pM4})
-		add("stream", 4, 5, strMem, c03Set{sc, pM0})
+		add("stream", 6, 8, strCount, c03Set{sc, pC0})
+		add("stream", 6, 8, strCount, c03Set{sc, pC1})
+		add("stream", 5, 8, strCount, c03Set{sc, pC2})
+		add("stream", 6, 8, strMem, c03Set{sc, pM4})
+		add("stream", 6, 8, strMem, c03Set{sc, pM0})
 	}
 	strTwoProto := strCount
 	strTwoProto.protos = []int{0, 1}
 	strTwoProto.streamPeers = []int{0}
 	strTwoProto.closedOps = true
-	add("stream", 4, 5, strTwoProto, c03Set{"proto", pC1})
-	add("stream", 0, 5, strTwoProto, c03Set{"protoPeer", pC1}, c03Set{"svc", pC2})
-	add("stream", 4, 5, strCount, c03Set{"protoPeer", pC1}, c03Set{"proto", pC2})
-	add("stream", 4, 5, strCount, c03Set{"svcPeer", pC1}, c03Set{"svc", pC2})
-	add("stream", 0, 5, strCount, c03Set{"proto", pC1}, c03Set{"protoPeer", pC2})
-	add("stream", 0, 5, strCount, c03Set{"peer", pT1}, c03Set{"proto", pT2}, c03Set{"svc", pT2}, c03Set{"system", pT2})
-	add("stream", 0, 5, strMem, c03Set{"svcPeer", pM4}, c03Set{"system", pMH})
+	add("stream", 6, 8, strTwoProto, c03Set{"proto", pC1})
+	add("stream", 5, 8, strTwoProto, c03Set{"protoPeer", pC1}, c03Set{"svc", pC2})
+	add("stream", 6, 8, strCount, c03Set{"protoPeer", pC1}, c03Set{"proto", pC2})
+	add("stream", 6, 8, strCount, c03Set{"svcPeer", pC1}, c03Set{"svc", pC2})
+	add("stream", 5, 8, strCount, c03Set{"proto", pC1}, c03Set{"protoPeer", pC2})
+	add("stream", 5, 8, strCount, c03Set{"peer", pT1}, c03Set{"proto", pT2}, c03Set{"svc", pT2}, c03Set{"system", pT2})
+	add("stream", 5, 8, strMem, c03Set{"svcPeer", pM4}, c03Set{"system", pMH})
 	{
-		s := add("stream", 0, 5, strTwoProto)
+		s := add("stream", 5, 8, strTwoProto)
 		s.lim.protoOver = map[int]BaseLimit{0: c03T1}
 		s.name = "stream/protoq1=T1(override)"
 	}
 
 	// ---- family mix: connections and streams of the same peer compete in peer and system ----
-	mix := c03Alpha{eps: []int{c03EPv4}, dirs: []network.Direction{c03In}, fds: []bool{true}, maxConns: 2, setPeer: []int{0},
-		streamPeers: []int{0}, streamDirs: []network.Direction{c03Out}, maxStreams: 2, protos: []int{0}, svc: true,
+	mix := c03Alpha{eps: []int{c03EPv4}, dirs: in1, fds: []bool{true}, maxConns: 2, setPeer: []int{0},
+		streamPeers: []int{0}, streamDirs: out1, maxStreams: 2, protos: []int{0}, svc: true,
 		sizes: []int64{3}, prios: []uint8{255}, memOn: [3]bool{true, true, false}, gc: true}
-	add("mix", 4, 5, mix, c03Set{"peer", pT1})
-	add("mix", 0, 5, mix, c03Set{"system", pT2})
-	add("mix", 0, 5, mix, c03Set{"transient", pT1})
+	add("mix", 6, 8, mix, c03Set{"peer", pT1})
+	add("mix", 5, 8, mix, c03Set{"system", pT2})
+	add("mix", 5, 8, mix, c03Set{"transient", pT1})
 
 	// ---- family prio: the priority arithmetic, all sizes x all priorities ----
 	allSizes := []int64{0, 1, 3, c03Big}
 	allPrios := []uint8{0, 127, 254, 255}
 	prioView := c03Alpha{views: []string{c03Sys}, viewSizes: allSizes, viewPrios: allPrios}
-	for _, p := range []c03Prof{pM0, pM4, pMH, {"U", c03Unl}, {"Mmax-1", c03Lim(c03Inf, c03Inf, c03Inf, math.MaxInt64-1)}, {"M255", c03Lim(c03Inf, c03Inf, c03Inf, 255)}} {
-		add("prio", 3, 4, prioView, c03Set{"system", p})
+	for _, p := range []c03Prof{pM0, pM4, pMH, {"U", c03Unl}, {"Mmax-1", c03Lim(c03Inf, c03Inf, c03Inf, math.MaxInt64-1)}, {"M255", c03Lim(c03Inf, c03Inf, c03Inf, 255)},
+		// MaxInt64/2+1 fits at priority 254 only if the scaling uses (1+prio) in the big-integer path
+		{"MB", c03Lim(c03Inf, c03Inf, c03Inf, int64(1)<<62+int64(1)<<54+int64(1)<<53)}} {
+		add("prio", 5, 7, prioView, c03Set{"system", p})
 	}
-	prioConn := c03Alpha{eps: []int{c03EPv4}, dirs: []network.Direction{c03In}, fds: []bool{false}, maxConns: 1, setPeer: []int{0},
+	prioConn := c03Alpha{eps: []int{c03EPv4}, dirs: in1, fds: []bool{false}, maxConns: 1, setPeer: []int{0},
 		sizes: allSizes, prios: allPrios, memOn: [3]bool{true, false, false}}
 	for _, sc := range []string{"conn", "transient", "peer", "system"} {
-		add("prio", 3, 4, prioConn, c03Set{sc, pM4})
-		add("prio", 0, 4, prioConn, c03Set{sc, pMH})
+		add("prio", 5, 7, prioConn, c03Set{sc, pM4})
+		add("prio", 5, 7, prioConn, c03Set{sc, pMH})
 	}
-	add("prio", 3, 4, prioConn)
+	add("prio", 5, 7, prioConn)
 
 	// ---- family span: spans (nested up to 2) on connections and streams, Done in any order ----
-	spanConn := c03Alpha{eps: []int{c03EPv4}, dirs: []network.Direction{c03In}, fds: []bool{false}, maxConns: 1, setPeer: []int{0},
+	spanConn := c03Alpha{eps: []int{c03EPv4}, dirs: in1, fds: []bool{false}, maxConns: 1, setPeer: []int{0},
 		sizes: []int64{1, 3}, prios: []uint8{255, 127}, memOn: [3]bool{true, false, true}, spanOn: [3]bool{true, false, true}, maxSpans: 2, maxNest: 2, closedOps: true}
-	add("span", 4, 6, spanConn)
-	add("span", 4, 6, spanConn, c03Set{"conn", pM4})
-	add("span", 4, 6, spanConn, c03Set{"system", pM4})
-	add("span", 0, 6, spanConn, c03Set{"peer", pM4})
-	add("span", 0, 6, spanConn, c03Set{"transient", pM4})
-	spanStream := c03Alpha{streamPeers: []int{0}, streamDirs: []network.Direction{c03In}, maxStreams: 1, protos: []int{0}, svc: true,
+	add("span", 6, 8, spanConn)
+	add("span", 6, 8, spanConn, c03Set{"conn", pM4})
+	add("span", 6, 8, spanConn, c03Set{"system", pM4})
+	add("span", 5, 8, spanConn, c03Set{"peer", pM4})
+	add("span", 5, 8, spanConn, c03Set{"transient", pM4})
+	spanStream := c03Alpha{streamPeers: []int{0}, streamDirs: in1, maxStreams: 1, protos: []int{0}, svc: true,
 		sizes: []int64{3}, prios: []uint8{255}, memOn: [3]bool{false, false, true}, spanOn: [3]bool{false, true, true}, maxSpans: 2, maxNest: 2, closedOps: true}
-	add("span", 5, 6, spanStream, c03Set{"svcPeer", pM4})
-	add("span", 0, 6, spanStream, c03Set{"proto", pM4})
-	add("span", 0, 6, spanStream)
+	add("span", 7, 9, spanStream, c03Set{"svcPeer", pM4})
+	add("span", 6, 9, spanStream, c03Set{"proto", pM4})
+	add("span", 6, 9, spanStream)
+	spanThree := spanConn
+	spanThree.maxSpans = 3
+	spanThree.sizes, spanThree.prios = []int64{3}, []uint8{255}
+	add("span", 6, 8, spanThree, c03Set{"system", pM4})
 
 	// ---- family view: View*-reservations, spans on View* scopes, gc ----
 	viewAll := c03Alpha{views: []string{c03Sys, c03Tr, c03PeerScope[0], c03ProtoScope[0], c03SvcN}, viewSizes: []int64{1, 3}, viewPrios: []uint8{255},
 		gc: true}
-	add("view", 3, 4, viewAll)
-	add("view", 3, 4, viewAll, c03Set{"system", pM4})
+	add("view", 5, 6, viewAll)
+	add("view", 5, 6, viewAll, c03Set{"system", pM4})
 	viewGC := c03Alpha{views: []string{c03PeerScope[0], c03ProtoScope[0]}, viewSizes: []int64{3}, viewPrios: []uint8{255}, viewSpan: true,
 		sizes: []int64{3}, prios: []uint8{255}, memOn: [3]bool{false, true, true}, maxSpans: 2, maxNest: 1,
-		streamPeers: []int{0}, streamDirs: []network.Direction{c03In}, maxStreams: 1, protos: []int{0}, svc: true, gc: true, closedOps: true}
-	add("view", 4, 6, viewGC)
-	add("view", 4, 6, viewGC, c03Set{"peer", pM4})
-	add("view", 0, 6, viewGC, c03Set{"proto", pM4})
-	add("view", 0, 6, viewGC, c03Set{"system", pM4})
+		streamPeers: []int{0}, streamDirs: in1, maxStreams: 1, protos: []int{0}, svc: true, gc: true, closedOps: true}
+	add("view", 6, 8, viewGC)
+	add("view", 6, 8, viewGC, c03Set{"peer", pM4})
+	add("view", 5, 8, viewGC, c03Set{"proto", pM4})
+	add("view", 5, 8, viewGC, c03Set{"system", pM4})
 	viewConn := c03Alpha{views: []string{c03Sys, c03Tr, c03PeerScope[0]}, viewSizes: []int64{3}, viewPrios: []uint8{255, 127},
-		eps: []int{c03EPv4}, dirs: []network.Direction{c03In}, fds: []bool{false}, maxConns: 1, setPeer: []int{0},
+		eps: []int{c03EPv4}, dirs: in1, fds: []bool{false}, maxConns: 1, setPeer: []int{0},
 		sizes: []int64{3}, prios: []uint8{255}, memOn: [3]bool{true, false, false}, gc: true}
-	add("view", 4, 5, viewConn, c03Set{"system", pM4})
-	add("view", 4, 5, viewConn, c03Set{"transient", pM4})
-	add("view", 4, 5, viewConn, c03Set{"peer", pM4})
+	add("view", 6, 7, viewConn, c03Set{"system", pM4})
+	add("view", 6, 7, viewConn, c03Set{"transient", pM4})
+	add("view", 6, 7, viewConn, c03Set{"peer", pM4})
+
+	// ---- family full: every kind of holder at once, several scopes tight at once ----
+	full := c03Alpha{eps: []int{c03EPv4}, dirs: in1, fds: []bool{true}, maxConns: 1, setPeer: []int{0},
+		streamPeers: []int{0}, streamDirs: out1, maxStreams: 1, protos: []int{0}, svc: true,
+		sizes: []int64{3}, prios: []uint8{255}, memOn: [3]bool{true, true, true}, spanOn: [3]bool{true, true, false}, maxSpans: 2, maxNest: 1,
+		views: []string{c03Sys, c03PeerScope[0]}, viewSizes: []int64{3}, viewPrios: []uint8{255}, gc: true}
+	add("full", 5, 7, full, c03Set{"system", pT2}, c03Set{"peer", pT2})
+	add("full", 5, 7, full, c03Set{"system", pM4})
+	add("full", 0, 7, full, c03Set{"peer", pM4}, c03Set{"transient", pT1})
+	add("full", 0, 7, full, c03Set{"proto", pM4}, c03Set{"svcPeer", pT1})
 
 	// ---- family net: endpoints, allow-list fallback, transfer back to the standard scopes, per-subnet caps ----
-	netA := c03Alpha{eps: []int{c03EPv4, c03EPal, c03EPalA, c03EPv6, c03EPnoip}, dirs: []network.Direction{c03In}, fds: []bool{false}, maxConns: 3,
+	netA := c03Alpha{eps: []int{c03EPv4, c03EPal, c03EPalA, c03EPv6, c03EPnoip}, dirs: in1, fds: []bool{false}, maxConns: 3,
 		setPeer: []int{0, 1}, gc: true}
 	netMem := netA
 	netMem.eps = []int{c03EPv4, c03EPal, c03EPalA}
+	netMem.fds = []bool{true}
 	netMem.sizes, netMem.prios, netMem.memOn = []int64{3}, []uint8{255}, [3]bool{true, false, false}
 	netMem.maxConns = 2
+	netDir := netA
+	netDir.eps = []int{c03EPv4, c03EPal, c03EPalA}
+	netDir.dirs, netDir.fds = both, []bool{true, false}
+	netDir.closedOps = true
 	type netCfg struct {
 		name     string
 		sets     []c03Set
@@ -249,26 +274,37 @@ func c03Scenarios() []*c03Scn {
 	netWide.eps = []int{c03EPv4, c03EPv4b, c03EPal, c03EPalb, c03EPalA, c03EPalA2, c03EPv6, c03EPv6b}
 	netWide.setPeer = nil
 	netWide.gc = false
+	netWide.maxConns = 4
+	netWide.closedOps = true // repeated Done must not return a subnet slot twice
 	for _, c := range []netCfg{
 		// standard scopes full from the start: every allow-listed endpoint goes through the fallback
-		{"system=C0,alSystem=C2", []c03Set{{"system", pC0}, {"alSystem", pC2}}, c03LooseSub, c03LooseSub6, 0, 4, 5, netA},
-		{"transient=C0,alTransient=C1", []c03Set{{"transient", pC0}, {"alTransient", pC1}}, c03LooseSub, c03LooseSub6, 0, 4, 5, netA},
-		{"system=C1,alSystem=C1", []c03Set{{"system", pC1}, {"alSystem", pC1}}, c03LooseSub, c03LooseSub6, 0, 4, 5, netA},
-		{"system=C1,alSystem=C2,alTransient=C1", []c03Set{{"system", pC1}, {"alSystem", pC2}, {"alTransient", pC1}}, c03LooseSub, c03LooseSub6, 0, 4, 5, netA},
-		{"transient=C1,peer=C1,alSystem=C2", []c03Set{{"transient", pC1}, {"peer", pC1}, {"alSystem", pC2}}, c03LooseSub, c03LooseSub6, 0, 0, 5, netA},
-		{"system=T1,alSystem=T2 (memory moves too)", []c03Set{{"system", pT1}, {"alSystem", pT2}, {"alTransient", pT2}}, c03LooseSub, c03LooseSub6, 0, 4, 5, netMem},
-		{"system=C1,peer=M4,alSystem=T2 (memory moves too)", []c03Set{{"system", pC1}, {"peer", pM4}, {"alSystem", pT2}}, c03LooseSub, c03LooseSub6, 0, 0, 5, netMem},
+		{"system=C0,alSystem=C2", []c03Set{{"system", pC0}, {"alSystem", pC2}}, c03LooseSub, c03LooseSub6, 0, 6, 7, netA},
+		{"transient=C0,alTransient=C1", []c03Set{{"transient", pC0}, {"alTransient", pC1}}, c03LooseSub, c03LooseSub6, 0, 6, 7, netA},
+		{"system=C1,alSystem=C1", []c03Set{{"system", pC1}, {"alSystem", pC1}}, c03LooseSub, c03LooseSub6, 0, 6, 7, netA},
+		{"system=C1,alSystem=C2,alTransient=C1", []c03Set{{"system", pC1}, {"alSystem", pC2}, {"alTransient", pC1}}, c03LooseSub, c03LooseSub6, 0, 6, 7, netA},
+		{"transient=C1,peer=C1,alSystem=C2", []c03Set{{"transient", pC1}, {"peer", pC1}, {"alSystem", pC2}}, c03LooseSub, c03LooseSub6, 0, 5, 7, netA},
+		{"system=T1,alSystem=T2 (memory and fd move too)", []c03Set{{"system", pT1}, {"alSystem", pT2}, {"alTransient", pT2}}, c03LooseSub, c03LooseSub6, 0, 6, 7, netMem},
+		{"system=C1,peer=M4,alSystem=T2 (memory and fd move too)", []c03Set{{"system", pC1}, {"peer", pM4}, {"alSystem", pT2}}, c03LooseSub, c03LooseSub6, 0, 5, 7, netMem},
+		{"system=C2,alSystem=C2 (both directions, fd)", []c03Set{{"system", pC2}, {"alSystem", pC2}}, c03LooseSub, c03LooseSub6, 0, 5, 6, netDir},
 		// per-subnet caps
-		{"caps /32=1,/56=1", nil, []c03SubnetCap{{32, 1}}, []c03SubnetCap{{56, 1}}, 0, 3, 4, netWide},
-		{"caps /32=2,/24=2,/56=2", nil, []c03SubnetCap{{32, 2}, {24, 2}}, []c03SubnetCap{{56, 2}}, 0, 3, 4, netWide},
-		{"caps /24=1,alnet=2", nil, []c03SubnetCap{{24, 1}}, []c03SubnetCap{{56, 2}}, 2, 3, 4, netWide},
-		{"caps /32=1 with system=C1,alSystem=C2", []c03Set{{"system", pC1}, {"alSystem", pC2}}, []c03SubnetCap{{32, 1}}, []c03SubnetCap{{56, 1}}, 0, 4, 5, netA},
-		{"caps /32=1,alnet=1 with system=C1,alSystem=C2", []c03Set{{"system", pC1}, {"alSystem", pC2}}, []c03SubnetCap{{32, 1}}, []c03SubnetCap{{56, 1}}, 1, 4, 5, netA},
-		{"caps /32=2,/24=2 with system=C0,alSystem=unl", []c03Set{{"system", pC0}}, []c03SubnetCap{{32, 2}, {24, 2}}, []c03SubnetCap{{56, 2}}, 0, 0, 5, netA},
+		{"caps /32=1,/56=1", nil, []c03SubnetCap{{32, 1}}, []c03SubnetCap{{56, 1}}, 0, 5, 6, netWide},
+		{"caps /32=2,/24=2,/56=2", nil, []c03SubnetCap{{32, 2}, {24, 2}}, []c03SubnetCap{{56, 2}}, 0, 6, 7, netWide},
+		{"caps /24=1,alnet=2", nil, []c03SubnetCap{{24, 1}}, []c03SubnetCap{{56, 2}}, 2, 5, 6, netWide},
+		{"caps /32=1 with system=C1,alSystem=C2", []c03Set{{"system", pC1}, {"alSystem", pC2}}, []c03SubnetCap{{32, 1}}, []c03SubnetCap{{56, 1}}, 0, 6, 7, netA},
+		{"caps /32=1,alnet=1 with system=C1,alSystem=C2", []c03Set{{"system", pC1}, {"alSystem", pC2}}, []c03SubnetCap{{32, 1}}, []c03SubnetCap{{56, 1}}, 1, 6, 7, netA},
+		{"caps /32=2,/24=2 with system=C0,alSystem=unl", []c03Set{{"system", pC0}}, []c03SubnetCap{{32, 2}, {24, 2}}, []c03SubnetCap{{56, 2}}, 0, 5, 7, netA},
 	} {
 		s := add("net", c.dq, c.dt, c.alpha, c.sets...)
 		s.name = "net/" + c.name
 		s.sub4, s.sub6, s.alNetCap = c.sub4, c.sub6, c.alNetCap
+	}
+	// scenario names identify the search in replay files: they must be unique
+	seen := map[string]int{}
+	for _, s := range out {
+		seen[s.name]++
+		if n := seen[s.name]; n > 1 {
+			s.name = fmt.Sprintf("%s #%d", s.name, n)
+		}
 	}
 	return out
 }
@@ -447,7 +483,19 @@ func c03Replay(t *testing.T, scns []*c03Scn, path string) {
 				}
 				err := in.apply(*op)
 				r.Executions++
-				t.Logf("step %d: %-60s -> system=%s", i, want, c03StatStr(in.rm.system.Stat()))
+				o := in.observe()
+				var names []string
+				for n := range o.stats {
+					names = append(names, n)
+				}
+				c03SortScopes(names)
+				line := ""
+				for _, n := range names {
+					if st := o.stats[n]; st != (network.ScopeStat{}) {
+						line += " " + n + "=" + c03StatStr(st)
+					}
+				}
+				t.Logf("step %d: %-55s -> reported:%s | subnet counters: %v | holders: %s", i, want, line, o.limiter, in.m.describe())
 				if err != nil {
 					t.Logf("   VIOLATION %v", err)
 					if v, ok := err.(*seqmc.Vio); ok {
